@@ -503,9 +503,10 @@ def end():
     s.abort_all()
     # wait for the OS threads to unwind
     for t in list(_th.enumerate()):
+        # (a thread drops its _target the moment it finishes)
+        target = getattr(t, '_target', None)
         if t is not _th.current_thread() and t.daemon and t.is_alive() \
-                and getattr(t, '_target', None) is not None \
-                and getattr(t._target, '__name__', '') == 'boot':
+                and getattr(target, '__name__', '') == 'boot':
             t.join(2.0)
     S = None
     return s
